@@ -31,7 +31,8 @@ class RandomAgent(AbstractScriptedAgent, discriminator="random-agent"):
         :return: Action formatted in CAOS format
         :rtype: Tuple[str, Dict]
         """
-        return self.action_manager.get_action(self.action_manager.space.sample())
+        # draw from the python RNG that the environment seeds, not from the action space's own unseeded generator
+        return self.action_manager.get_action(random.randrange(len(self.action_manager.action_map)))
 
 
 class PeriodicAgent(AbstractScriptedAgent, discriminator="periodic-agent"):
